@@ -64,6 +64,7 @@ Plans(s) ==
       i \in {0, 1}, h \in {0, s.height + 1}, o \in {"v3", "bad:notbech32"}, k \in {"k3", "nil"}, x \in {<<"e2">>, <<"bad:notbech32">>}}
 PlanEvents(s) ==
   IF s.phase = "pre" THEN Genesis({P(2, 1), P(1, 1)})
+                          \cup {[type |-> "InitGenesis", params |-> P(2, 1), vals |-> << V("v1", "k1", 5) >>]}     \* a genesis validator whose power is not 1: a plan that re-appoints it changes a positive power
   ELSE Blocks(s)
        \cup (IF s.phase = "in" THEN Adds({"opchild"}, {"v1", "v2"}, {"k1", "k2"}) \cup Removes({"opchild"}, {"v1"}) ELSE {})
        \cup (IF Cardinality(DOMAIN s.plans) < 1 THEN Plans(s) ELSE {})
@@ -103,9 +104,14 @@ AgreesOut(s) ==
   /\ \A o \in DOMAIN s.vals : s.vals[o].power > 0          \* a removed validator is gone by the end of the block
 HistoryRetention(s) ==
   \A hk \in DOMAIN s.hist : \E h \in 0..s.height : K(h) = hk /\ h > s.height - s.params.histEntries
+(* inside a block the engine still holds exactly what the last EndBlock told it: the last powers, under the keys of records that are kept until the block ends *)
+EngineMatchesLast(s) ==
+  /\ \A o \in DOMAIN s.lastPow : Has(s.vals, o)
+  /\ s.comet = [k \in {KeyOf(s, o) : o \in DOMAIN s.lastPow} |-> LET o == CHOOSE x \in DOMAIN s.lastPow : KeyOf(s, x) = k IN s.lastPow[o]]
 Good(s) ==
   /\ ~s.halted /\ s.cometOK /\ IndexBijective(s) /\ Capacity(s)
   /\ (s.phase = "out" => AgreesOut(s))
+  /\ (s.phase = "in" => EngineMatchesLast(s))
 Deviates(o) == o.e.type = "EndBlock" /\ o.ok /\ o.resp.devs # {}
 GoodPreserved(s, o, t) == ((s.phase = "pre" \/ Good(s)) /\ o.ok /\ ~Deviates(o)) => (t.phase = "pre" \/ Good(t))
 BatchWellFormed(s, o, t) ==
